@@ -13,10 +13,17 @@ import (
 // simulator before tasks are started and cleared after they are joined.
 var YieldHook func(site int)
 
+// Steps counts the yield points passed: the number of statements of package
+// cose executed so far.  It is a deterministic, load-independent measure of
+// the work go-cose itself does for a call (work inside the CBOR library and
+// crypto is not counted).
+var Steps uint64
+
 // Yield is inserted before every statement of package cose.
 //
 //go:norace
 func Yield(site int) {
+	Steps++
 	if h := YieldHook; h != nil {
 		h(site)
 	}
